@@ -13,6 +13,7 @@ Nothing is executed and no solver is involved: equality of terms is a normal-for
 from __future__ import annotations
 
 import ast
+import copy
 from dataclasses import dataclass, field
 from fractions import Fraction
 
@@ -414,6 +415,14 @@ def static_truth(g: G):
         v = g.rat.const_value()
         return {'<': v < 0, '<=': v <= 0, '==': v == 0, '!=': v != 0}[g.key[0]]
     return None
+
+
+class _SubstName(ast.NodeTransformer):
+    def __init__(self, old, new):
+        self.old, self.new = old, new
+
+    def visit_Name(self, node):
+        return ast.copy_location(ast.Name(id=self.new, ctx=node.ctx), node) if node.id == self.old else node
 
 
 # ------------------------------------------------------------------------------------------ state
@@ -3181,6 +3190,69 @@ class SX:
             # numpy.clip(x, lo, hi) = min(max(x, lo), hi) as a number - but a numpy scalar as an object
             inner = self.ctx.call('max', [args[0].term, args[1].term])
             return [(st, N(self.ctx.call('min', [inner, args[2].term]), 'numpy'))]
+        if name in ('min', 'max') and len(args) >= 2 and 'key' in kwargs:
+            # min(a, b, key=lambda x: ...): the element whose KEY is smallest (first one on ties) - decided by comparing the keys
+            knode = next((k.value for k in n.keywords if k.arg == 'key'), None)
+            if not (isinstance(knode, ast.Lambda) and len(knode.args.args) == 1 and set(kwargs) == {'key'}):
+                raise CannotDecide(f'{name}() with a key that is not a one-argument lambda')
+            par = knode.args.args[0].arg
+            if all(isinstance(a, Q) for a in args):
+                # a key that is the SI magnitude up to one positive constant orders the operands as the unit-aware comparison does:
+                # the same value as min(a, b) without a key (kept in that canonical form)
+                ratios = []
+                for a in args:
+                    s1 = st.copy()
+                    s1.env = dict(st.env, **{par: a})
+                    try:
+                        ks = self.eval_x(knode.body, s1, frame)
+                    except CannotDecide:
+                        ks = []
+                    c_ = None
+                    if len(ks) == 1 and not isinstance(ks[0], Outcome) and isinstance(ks[0][1], N) and not a.term.is_zero():
+                        # key = c * (SI magnitude) for a constant c?  (cross-multiplied: key.n * a.d == c * a.n * key.d)
+                        k_ = ks[0][1].term
+                        lhs, rhs = Rat(k_.n) * Rat(a.term.d), Rat(a.term.n) * Rat(k_.d)
+                        mono = next(iter(rhs.n.t), None)
+                        if mono is not None and mono in lhs.n.t and rhs.d.is_const() and lhs.d.is_const():
+                            c_ = (lhs.n.t[mono] / lhs.d.const_value()) / (rhs.n.t[mono] / rhs.d.const_value())
+                            if not self.ctx.eq(lhs, Rat.const(c_) * rhs):
+                                c_ = None
+                    if c_ is None:
+                        ratios = None
+                        break
+                    ratios.append(Rat.const(c_))
+                if ratios and all(r.is_const() and r.const_value() > 0 and r.const_value() == ratios[0].const_value() for r in ratios):
+                    units = {a.unit.key() if a.unit else None for a in args}
+                    u = args[0].unit if len(units) == 1 else None
+                    return [(st, Q(args[0].kind, self.ctx.call(name, [a.term for a in args]), u))]
+            cur = [(st, args[0])]
+            for cand in args[1:]:
+                nxt = []
+                for s_, best in cur:
+                    s1 = s_.copy()
+                    saved = dict(s1.env)
+                    s1.env = dict(saved, **{'<best>': best, '<cand>': cand})
+                    body_b = ast.fix_missing_locations(ast.copy_location(_SubstName(par, '<best>').visit(copy.deepcopy(knode.body)), n))
+                    body_c = ast.fix_missing_locations(ast.copy_location(_SubstName(par, '<cand>').visit(copy.deepcopy(knode.body)), n))
+                    test = ast.copy_location(ast.Compare(left=body_c, ops=[ast.Lt() if name == 'min' else ast.Gt()], comparators=[body_b]), n)
+                    ast.fix_missing_locations(test)
+                    tr, fa, rs = self.branch(test, s1, frame)
+                    res_out = []
+                    for o in rs:
+                        o.state.env = dict(saved)
+                        res_out.append(o)
+                    for s2 in tr:
+                        s2 = s2.copy()
+                        s2.env = dict(saved)
+                        nxt.append((s2, cand))
+                    for s2 in fa:
+                        s2 = s2.copy()
+                        s2.env = dict(saved)
+                        nxt.append((s2, best))
+                    if res_out:
+                        return res_out + nxt
+                cur = nxt
+            return cur
         if name in ('min', 'max') and len(args) >= 2:
             if all(isinstance(a, Q) for a in args):
                 units = {a.unit.key() if a.unit else None for a in args}
